@@ -195,6 +195,9 @@ def shard(shard_i, nshards, payload):
             docs += [broken, broken.strip(), " ".join(broken.split()), broken + "\n" * 30]
             valid_ws = docs[0]
             docs += [valid_ws.strip() + "\n" * 20, " ".join(valid_ws.split())]
+            # documents being typed: cut off, ending in a non-ASCII character without a final line break
+            docs += [hostile.truncate_with_tail(docs[0], rng) for _ in range(3)]
+            docs += ["\ufeff" + docs[0], docs[1] + " // é", "PROGRAM p\nVAR x : INT; END_VAR\nx := 1;\n// René"]
             if payload.get("clean_docs"):
                 docs = docs[:7]
             ops = gen_ops(rng, docs, rng.randint(1, 60))
